@@ -192,6 +192,34 @@ def c17_setup_checks(seed, tier, cov):
 CLAIMS["C17"]["extra_checks"] = c17_setup_checks
 
 
+def _order_tie():
+    import translated
+    return translated.order_tie()
+
+
+def _order_sweep_c02(seed, tier, cov):
+    import translated
+    return translated.order_sweep_c02(seed, tier, cov)
+
+
+def _order_sweep_c04(seed, tier, cov):
+    import translated
+    return translated.order_sweep_c04(seed, tier, cov)
+
+
+TRANSLATOR_NOTE = (" Translator tie (harness/py2coq_order.py, fail-closed Python-ast -> Gallina): the comparison operators and is_expired of "
+                   "pams.order.Order are REGENERATED from /repo's source on every run and coq/translated/OrderGenProofs.v is re-checked against the "
+                   "generated text: the generated `<` is the hand-written ranking oltq on accepted same-side orders (so every priority / matching theorem "
+                   "is about the code's own comparator), `>` its converse, == / <= / >= / != consistent, mixed sides raise ValueError, is_expired is the model's "
+                   "expiry test. A change the translator cannot read, or one that breaks a theorem, is searched for a concrete failing pair on the real Order "
+                   "objects (exhaustive small-domain sweep) and otherwise reported with no-failing-input-found.")
+for _p, _sw in (("C02", _order_sweep_c02), ("C04", _order_sweep_c04)):
+    CLAIMS[_p]["ties"] = (_order_tie,)
+    CLAIMS[_p]["extra_checks"] = _sw
+    CLAIMS[_p]["text"] += TRANSLATOR_NOTE
+    CLAIMS[_p]["technique"] += " + source-to-Gallina translator tie for pams/order.py (regenerated and re-proved every run)"
+
+
 def c07_determinism(seed, tier, cov):
     """differential determinism test: each configuration is run in fresh processes under different interpreter hash seeds, with
     Python's and NumPy's global generators perturbed, and twice in one process; everything observable must hash the same"""
